@@ -59,8 +59,20 @@ class MyList(list):
     """a list *subclass*: opaque to gather"""
 
 
+FLAKY = {"k": 0, "seen": {}}  # transient failures: the first k invocations of every function raise
+
+
+class Transient(Exception):
+    pass
+
+
 def make_fn(name):
     def f(*args, **kwargs):
+        if FLAKY["k"]:
+            a = FLAKY["seen"].get(name, 0)
+            FLAKY["seen"][name] = a + 1
+            if a < FLAKY["k"]:
+                raise Transient(f"attempt {a} of {name}")
         return Rec(name, args, tuple(kwargs.items()))
     f.__name__ = f.__qualname__ = name
     return f
@@ -384,8 +396,18 @@ def build(p):
     return plan, bo.obj, ref, ident, nodes, err
 
 
-def check_program(p, W, sched, run=None):
-    """Returns None or a message."""
+def check_program(p, W, sched, run=None, retry=None, flaky=0):
+    """Returns None or a message.  retry/flaky: every function fails transiently `flaky` times and the run retries."""
+    import uberjob
+
+    FLAKY["k"], FLAKY["seen"] = flaky, {}
+    try:
+        return _check_program(p, W, sched, run, retry)
+    finally:
+        FLAKY["k"], FLAKY["seen"] = 0, {}
+
+
+def _check_program(p, W, sched, run, retry):
     import uberjob
 
     try:
@@ -393,7 +415,8 @@ def check_program(p, W, sched, run=None):
     except TypeError:
         raise Unsupported()  # the user could not even write this expression (unhashable set member / dict key)
     try:
-        got = (run or uberjob.run)(plan, output=out_obj, max_workers=W, scheduler=sched, progress=None)
+        kw = {} if retry is None else {"retry": retry}
+        got = (run or uberjob.run)(plan, output=out_obj, max_workers=W, scheduler=sched, progress=None, **kw)
     except uberjob.CallError as e:
         if err is not None and isinstance(e.__cause__, err):
             return None
@@ -406,6 +429,12 @@ def check_program(p, W, sched, run=None):
     return deep_same(got, exp, ident)
 
 
+def _passthrough_retry(f):
+    def g(*a, **k):
+        return f(*a, **k)
+    return g
+
+
 def _shard(payload):
     tier, k, nshards = payload
     n = 0
@@ -415,16 +444,25 @@ def _shard(payload):
     for idx, (family, p) in enumerate(programs(tier)):
         if idx % nshards != k:
             continue
-        for W, sched in ((1, "default"), (1, "random"), (2, "default")):
+        modes = [(1, "default", None, 0), (1, "random", None, 0), (2, "default", None, 0), (1, "default", 3, 2)]
+        if tier != "quick":
+            modes += [(2, "random", 2, 1), (1, "default", 3, 1), (1, "default", _passthrough_retry, 0)]
+        if p.get("unpack") and p["unpack"][0] in ("iter", "inf") and p["unpack"][1] != p["unpack"][2]:
+            # re-invoking a failed unpack on a one-shot iterator finds it partly consumed: retrying is the
+            # user's choice and not idempotent here, so the wrong-length cases are explored without retry
+            modes = [m for m in modes if m[2] is None]
+        for W, sched, retry, flaky in modes:
             try:
-                msg = check_program(p, W, sched)
+                msg = check_program(p, W, sched, retry=retry, flaky=flaky)
+                if msg and retry is not None:
+                    msg = f"[retry={getattr(retry, '__name__', retry)}, every function fails transiently {flaky}x] " + msg
             except Unsupported:
                 skipped += 1
                 break
             n += 1
             fam[family] = fam.get(family, 0) + 1
             if msg:
-                fails.append((family, idx, W, sched, msg, repr(p)[:300]))
+                fails.append((family, idx, W, sched, msg, repr(p)[:300], retry if retry is None or isinstance(retry, int) else "passthrough", flaky))
     return {"n": n, "skipped": skipped, "fails": fails[:30], "nfails": len(fails), "fam": fam}
 
 
@@ -485,23 +523,23 @@ def run(tier):
     for r in res:
         for k, v in r["fam"].items():
             fam[k] = fam.get(k, 0) + v
-        for family, idx, W, sched, msg, prog in r["fails"]:
+        for family, idx, W, sched, msg, prog, rt, flaky in r["fails"]:
             key = f"{family} :: {msg.split(':')[0][:40]} :: {msg[:60]}"
             viols.append(common.Violation(PROP, key, f"program #{idx} ({family}), {W} worker(s), scheduler {sched}: {msg}; program {prog}",
-                                          {"engine": "E3", "tier": tier, "index": idx, "W": W, "sched": sched}))
+                                          {"engine": "E3", "tier": tier, "index": idx, "W": W, "sched": sched, "retry": rt, "flaky": flaky}))
     cfgs = e1_cfgs(tier)
     agg = e1run.explore(FACTORY, cfgs, {"preempt": 1, "random": 1})
     v2, notes = e1run.to_violations(PROP, agg, FACTORY, {"preempt": 1, "random": 1})
     viols += v2
     cov = {
         "evaluations": n + agg["executions"],
-        "distinct_nontrivial": n // 3,
+        "distinct_nontrivial": n // (4 if tier == "quick" else 7),
         "programs_by_family": fam,
         "programs_skipped_not_writable_by_a_user": sum(r["skipped"] for r in res),
         "e1_programs": len(cfgs), "e1_executions": agg["executions"], "e1_schedule_tree_nodes": agg["tree_nodes"], "e1_capped": agg["capped"],
         "rule": ("all programs of four families: (1) every expression of nesting depth <= 2 (thorough: 3) over {int, three nodes two of which evaluate equal, opaque list subclass, list subclass holding a Node} "
                  "in list/tuple/set/dict (nodes as keys, colliding keys) as positional argument, keyword argument and output specification; (2) every mix of <= 2 (3) positional and <= 2 keyword arguments in both keyword orders over 5 values; "
-                 "(3) every chain of 3 calls consuming earlier results in every position; (4) unpack of tuple/list/iterator/infinite iterator of length 0..4 into 0..3 items; each under 1 worker x {default, random} and 2 workers; "
+                 "(3) every chain of 3 calls consuming earlier results in every position; (4) unpack of tuple/list/iterator/infinite iterator of length 0..4 into 0..3 items; each under 1 worker x {default, random} and 2 workers, and with every function failing transiently N-1 times under retry=N (thorough: also success on a middle attempt, a pass-through user decorator); "
                  "reference = independent recursive evaluation with identity tracking; plus every schedule with <= 1 preemption (2 workers) of selected chain / unpack programs under E1"),
         "samples": [{"family": "expr-as-argument", "program": repr({"calls": BASE_CALLS + [("f", [("dict", [(("n", 0), ("int", 7)), (("n", 2), ("op",))])], [])], "output": ("n", 3)})}],
         "exhaustive": not agg["capped"],
@@ -516,7 +554,8 @@ def replay(rep):
         return [m for t, m in msgs if t == PROP]
     for idx, (family, p) in enumerate(programs(rep.get("tier", "quick"))):
         if idx == rep["index"]:
-            msg = check_program(p, rep["W"], rep["sched"])
+            rt = rep.get("retry")
+            msg = check_program(p, rep["W"], rep["sched"], retry=_passthrough_retry if rt == "passthrough" else rt, flaky=rep.get("flaky", 0))
             print("program:", p)
             print("ORACLE:", msg)
             return [msg] if msg else []
